@@ -26,6 +26,57 @@ type pubWalker struct {
 	steps    []string
 	defers   []*ast.CallExpr
 	depth    int // 1 inside an inlined callee
+	// path-sensitive variants: assume maps the text of a (negation-stripped) condition to its assumed
+	// value; exitIf is the top-level alternative-exit `if` this walk leaves the function through.
+	assume map[string]bool
+	exitIf *ast.IfStmt
+}
+
+// pubSplice: plain in-package functions that are extraction targets themselves.
+var pubSplice = map[string]bool{"WriteTXIDFile": true}
+
+var errPubExit = fmt.Errorf("left through an alternative exit")
+
+// condKey strips parentheses and leading negations: (text of the base condition, negated?).
+func condKey(e ast.Expr) (string, bool) {
+	neg := false
+	for {
+		switch x := e.(type) {
+		case *ast.ParenExpr:
+			e = x.X
+			continue
+		case *ast.UnaryExpr:
+			if x.Op == token.NOT {
+				neg = !neg
+				e = x.X
+				continue
+			}
+		}
+		return types.ExprString(e), neg
+	}
+}
+
+// assumed reports the assumed truth value of cond on the walked path, if any.
+func (w *pubWalker) assumed(cond ast.Expr) (val, known bool) {
+	base, neg := condKey(cond)
+	v, ok := w.assume[base]
+	return v != neg, ok
+}
+
+func (w *pubWalker) runDefers() error {
+	ds := w.defers
+	for i := len(ds) - 1; i >= 0; i-- {
+		var err error
+		if fl, ok := ds[i].Fun.(*ast.FuncLit); ok {
+			err = w.stmts(fl.Body.List)
+		} else {
+			err = w.expr(ds[i], nil)
+		}
+		if err != nil {
+			return err
+		}
+	}
+	return nil
 }
 
 func (w *pubWalker) emit(s string) {
@@ -154,9 +205,38 @@ func (w *pubWalker) ifStmt(s *ast.IfStmt) error {
 	thenExits := pubHasReturn(s.Body.List)
 	if s.Else == nil {
 		if thenExits {
-			return nil // alternative exit
+			if s == w.exitIf { // this variant leaves the function here
+				n := len(s.Body.List)
+				ret, ok := s.Body.List[n-1].(*ast.ReturnStmt)
+				if !ok {
+					return fmt.Errorf("alternative exit at %s does not end in a return", w.p.fset.Position(s.Pos()))
+				}
+				if err := w.stmts(s.Body.List[:n-1]); err != nil {
+					return err
+				}
+				for _, r := range ret.Results {
+					if err := w.expr(r, nil); err != nil {
+						return err
+					}
+				}
+				if err := w.runDefers(); err != nil {
+					return err
+				}
+				w.emit("ok")
+				return errPubExit
+			}
+			return nil // alternative exit not taken on this path
+		}
+		if v, known := w.assumed(s.Cond); known && !v {
+			return nil // the condition is false on this path (it is the negation of an exit condition)
 		}
 		return w.stmts(s.Body.List)
+	}
+	if v, known := w.assumed(s.Cond); known {
+		if v {
+			return w.stmts(s.Body.List)
+		}
+		return w.stmt(s.Else)
 	}
 	elseExits := false
 	if b, ok := s.Else.(*ast.BlockStmt); ok {
@@ -235,6 +315,11 @@ func (w *pubWalker) call(c *ast.CallExpr, lhs []ast.Expr) error {
 			w.handles[lhs0] = r
 			delete(w.alias, lhs0)
 		}
+	}
+	if pubSplice[fun] && w.depth == 0 {
+		// another extracted protocol called on the success path: spliced in afterwards (every variant of it)
+		w.emit("call " + fun)
+		return nil
 	}
 	method, recv := "", ast.Expr(nil)
 	if sel, ok := c.Fun.(*ast.SelectorExpr); ok {
@@ -489,17 +574,8 @@ func (w *pubWalker) body(list []ast.Stmt, top bool) error {
 			}
 		}
 	}
-	ds := w.defers
-	for i := len(ds) - 1; i >= 0; i-- {
-		var err error
-		if fl, ok := ds[i].Fun.(*ast.FuncLit); ok {
-			err = w.stmts(fl.Body.List)
-		} else {
-			err = w.expr(ds[i], nil)
-		}
-		if err != nil {
-			return err
-		}
+	if err := w.runDefers(); err != nil {
+		return err
 	}
 	if top {
 		w.emit("ok")
@@ -507,26 +583,83 @@ func (w *pubWalker) body(list []ast.Stmt, top bool) error {
 	return nil
 }
 
-func pubExtract(p *pkg, repo, recvType, fn, name string) ([]string, error) {
+// pubErrorExit: the block's return hands back an error value (fmt.Errorf, errors.New, an Err… value).
+func pubErrorExit(list []ast.Stmt) bool {
+	ret, ok := list[len(list)-1].(*ast.ReturnStmt)
+	if !ok || len(ret.Results) == 0 {
+		return false
+	}
+	last := types.ExprString(ret.Results[len(ret.Results)-1])
+	for _, p := range []string{"fmt.Errorf(", "errors.New(", "Err", "err", "NewLTXError(", "litestream.Err"} {
+		if strings.HasPrefix(last, p) {
+			return true
+		}
+	}
+	return false
+}
+
+type pubVariant struct {
+	name  string
+	steps []string
+}
+
+// pubExtract returns the main success path of the function and one variant per top-level alternative
+// exit (`if <non-error condition> { …; return … }` directly in the function body). Paths are made
+// consistent by condition text: on the main path every exit condition is false (so a block guarded by
+// its negation is taken), on variant i exit conditions before i are false and condition i is true.
+func pubExtract(p *pkg, repo, recvType, fn, name string) ([]pubVariant, error) {
 	fd, err := p.funcDecl(recvType, fn)
 	if err != nil {
 		return nil, err
 	}
-	w := &pubWalker{p: p, repo: repo, recvType: recvType, handles: map[string]string{}, alias: map[string]string{}, pathRole: map[string]string{}}
-	if fd.Recv != nil && len(fd.Recv.List) == 1 && len(fd.Recv.List[0].Names) == 1 {
-		w.recv = fd.Recv.List[0].Names[0].Name
-	}
 	if fd.Body == nil {
 		return nil, fmt.Errorf("%s: no body", name)
 	}
-	if err := w.body(fd.Body.List, true); err != nil {
+	var exits []*ast.IfStmt
+	for _, st := range fd.Body.List {
+		if is, ok := st.(*ast.IfStmt); ok && is.Else == nil && !pubIsErrTest(is.Cond) && pubHasReturn(is.Body.List) && !pubErrorExit(is.Body.List) {
+			exits = append(exits, is)
+		}
+	}
+	walk := func(exit int) ([]string, error) {
+		w := &pubWalker{p: p, repo: repo, recvType: recvType, handles: map[string]string{}, alias: map[string]string{}, pathRole: map[string]string{}, assume: map[string]bool{}}
+		if fd.Recv != nil && len(fd.Recv.List) == 1 && len(fd.Recv.List[0].Names) == 1 {
+			w.recv = fd.Recv.List[0].Names[0].Name
+		}
+		for i, is := range exits {
+			base, neg := condKey(is.Cond)
+			if exit >= 0 && i > exit {
+				break
+			}
+			w.assume[base] = (i == exit) != neg
+		}
+		if exit >= 0 {
+			w.exitIf = exits[exit]
+		}
+		if err := w.body(fd.Body.List, true); err != nil && err != errPubExit {
+			return nil, err
+		} else if exit >= 0 && err != errPubExit {
+			return nil, fmt.Errorf("alternative exit %d was not reached", exit)
+		}
+		return w.steps, nil
+	}
+	main, err := walk(-1)
+	if err != nil {
 		return nil, fmt.Errorf("%s: %w", name, err)
 	}
-	all := " " + strings.Join(w.steps, ", ") + ","
-	if !strings.Contains(all, " create ") || !strings.Contains(all, " rename ") || w.steps[len(w.steps)-1] != "ok" {
-		return nil, fmt.Errorf("%s: extracted sequence is not a publish protocol (needs create, rename, final ok): [%s]", name, strings.Join(w.steps, ", "))
+	all := " " + strings.Join(main, ", ") + ","
+	if !strings.Contains(all, " create ") || !strings.Contains(all, " rename ") || main[len(main)-1] != "ok" {
+		return nil, fmt.Errorf("%s: extracted sequence is not a publish protocol (needs create, rename, final ok): [%s]", name, strings.Join(main, ", "))
 	}
-	return w.steps, nil
+	out := []pubVariant{{name, main}}
+	for i, is := range exits {
+		steps, err := walk(i)
+		if err != nil {
+			return nil, fmt.Errorf("%s[%s]: %w", name, types.ExprString(is.Cond), err)
+		}
+		out = append(out, pubVariant{name + "[" + types.ExprString(is.Cond) + "]", steps})
+	}
+	return out, nil
 }
 
 func init() {
@@ -572,27 +705,77 @@ func init() {
 		var sb, js strings.Builder
 		var ids []string
 		sb.WriteString("import Litestream.Model.Fs\nnamespace Litestream.Gen\nopen Litestream.Fs\n\n")
-		for i, t := range ts {
-			steps, err := pubExtract(t.p, repo, t.recv, t.fn, t.name)
+		type entry struct {
+			pubVariant
+			id, doc string
+		}
+		var mains, variants []entry
+		byFn := map[string][]pubVariant{}
+		for _, t := range ts {
+			vs, err := pubExtract(t.p, repo, t.recv, t.fn, t.name)
 			if err != nil {
 				return "", err
 			}
-			var lean, quoted []string
-			for _, s := range steps {
-				lean = append(lean, "."+strings.ReplaceAll(s, " ", " ."))
-				quoted = append(quoted, `"`+s+`"`)
-			}
-			id := "proto_" + strings.ReplaceAll(t.name, ".", "_")
-			ids = append(ids, id)
+			byFn[t.fn] = vs
 			decl := t.fn
 			if t.recv != "" {
 				decl = "(*" + t.recv + ")." + t.fn
 			}
-			fmt.Fprintf(&sb, "/-- %s: %s -/\ndef %s : Protocol := ⟨%q, [%s]⟩\n\n", t.src, decl, id, t.name, strings.Join(lean, ", "))
+			for i, v := range vs {
+				e := entry{v, "proto_" + strings.ReplaceAll(t.name, ".", "_"), t.src + ": " + decl}
+				if i == 0 {
+					mains = append(mains, e)
+				} else {
+					e.id += fmt.Sprintf("_exit%d", i)
+					e.doc += " leaving through `if " + strings.TrimSuffix(strings.SplitN(v.name, "[", 2)[1], "]") + " { …; return }`"
+					variants = append(variants, e)
+				}
+			}
+		}
+		// splice called protocols (every variant of the callee, without its final ok) into their callers
+		var expanded []entry
+		for _, e := range append(mains, variants...) {
+			todo := []entry{e}
+			for len(todo) > 0 {
+				cur := todo[0]
+				todo = todo[1:]
+				at := -1
+				for i, st := range cur.steps {
+					if strings.HasPrefix(st, "call ") {
+						at = i
+						break
+					}
+				}
+				if at < 0 {
+					expanded = append(expanded, cur)
+					continue
+				}
+				callee := strings.TrimPrefix(cur.steps[at], "call ")
+				cvs, ok := byFn[callee]
+				if !ok {
+					return "", fmt.Errorf("%s calls %s, which was not extracted", cur.name, callee)
+				}
+				for j, cv := range cvs {
+					n := entry{cur.pubVariant, cur.id, cur.doc}
+					n.steps = append(append(append([]string(nil), cur.steps[:at]...), cv.steps[:len(cv.steps)-1]...), cur.steps[at+1:]...)
+					n.name = cur.name + "+" + cv.name
+					n.id = fmt.Sprintf("%s_c%d", cur.id, j)
+					todo = append(todo, n)
+				}
+			}
+		}
+		for i, e := range expanded {
+			var lean, quoted []string
+			for _, s := range e.steps {
+				lean = append(lean, "."+strings.ReplaceAll(s, " ", " ."))
+				quoted = append(quoted, `"`+s+`"`)
+			}
+			ids = append(ids, e.id)
+			fmt.Fprintf(&sb, "/-- %s -/\ndef %s : Protocol := ⟨%q, [%s]⟩\n\n", e.doc, e.id, e.name, strings.Join(lean, ", "))
 			if i > 0 {
 				js.WriteString(",")
 			}
-			fmt.Fprintf(&js, `{"name":%q,"steps":[%s]}`, t.name, strings.Join(quoted, ","))
+			fmt.Fprintf(&js, `{"name":%q,"steps":[%s]}`, e.name, strings.Join(quoted, ","))
 		}
 		fmt.Fprintf(&sb, "def publishProtocols : List Protocol := [%s]\n\n", strings.Join(ids, ", "))
 		openTmp, err := openRemovesTmp(root)
